@@ -25,6 +25,7 @@ mod c20;
 mod cs;
 mod dl;
 mod jpt;
+mod ledger;
 mod life;
 mod ls;
 mod md;
@@ -53,7 +54,7 @@ fn main() {
         cases.rotate_left(k);
       }
       let mut rep = Report::new();
-      start_watchdog(args[2].to_lowercase(), args[4].clone(), 25);
+      start_watchdog(args[2].to_lowercase(), args[4].clone(), 120);
       note_case(&serde_json::json!("start"));
       match args[2].as_str() {
         "C01" => c01::replay(&cases, &mut rep),
@@ -82,6 +83,7 @@ fn main() {
         "LS" => ls::replay(&cases, &mut rep),
         "CS" => cs::replay(&cases, &mut rep),
         "JPT" => jpt::replay(&cases, &mut rep),
+        "LEDGER" => ledger::replay(&cases, &mut rep),
         "TFR" => jpt::replay_tfr(&cases, &mut rep),
         "SDVC" => sdvc::replay(&cases, &mut rep),
         "SDVCFLOW" => sdvc::replay_flow(&cases, &mut rep),
